@@ -1,5 +1,5 @@
 #!/bin/bash
-# usage: tools/seeded_matrix.sh [seed] [parallel jobs]   -- run every seeded change against the checks named in its
+# usage: [ONLY=<regex on seeded/<name>/>] tools/seeded_matrix.sh [seed] [parallel jobs]   -- run every seeded change against the checks named in its
 # meta.json (quick tier, scratch worktree each) and print one line per (change, check): caught / MISSED.  Entries whose
 # meta says caught_by [] (not judged by design) are listed as such and not run.
 cd "$(dirname "$0")/.."
@@ -17,4 +17,4 @@ one() {
   echo "$out" | grep -q "PATCH DOES NOT APPLY" && echo "$name PATCH-DOES-NOT-APPLY"
 }
 export -f one
-ls -d seeded/*/ | xargs -P "$jobs" -I{} bash -c 'one {}'
+ls -d seeded/*/ | grep -E "${ONLY:-.}" | xargs -P "$jobs" -I{} bash -c 'one {}'
